@@ -183,6 +183,11 @@ def equal(st, a, b):
     if isinstance(a, VEmptySeq) and isinstance(b, VEmptySeq):
         return z3.BoolVal(True)
     num = (VInt, VBool, VFloat)
+    from . import pyint as _pi
+    if _pi.is_npint(a) and isinstance(b, (VInt, VBool)):       # numpy scalar == Python int: by value
+        return _pi.val(a) == to_int(b).t
+    if _pi.is_npint(b) and isinstance(a, (VInt, VBool)):
+        return _pi.val(b) == to_int(a).t
     if isinstance(a, num) and isinstance(b, num):
         if isinstance(a, VFloat) or isinstance(b, VFloat):
             fa, fb = to_float(a), to_float(b)
